@@ -256,7 +256,8 @@ def main(prog: Union[str, None] = None) -> None:
         # No datafile give, and not starting in server mode.
         sys.stderr.write('Input Error. No DataGraph file or endpoint supplied.\n')
         parser.print_usage(sys.stderr)
-        sys.exit(1)
+        # exit status 1 is reserved for "DataGraph is Non-Conformant": input errors are errors (2)
+        sys.exit(2)
     validator_kwargs = {'debug': args.debug}
     data_file = None
     data_graph: Union[BufferedReader, str]
@@ -264,7 +265,7 @@ def main(prog: Union[str, None] = None) -> None:
         endpoint = str(args.data).strip()
         if not endpoint.lower().startswith("http:") and not endpoint.lower().startswith("https:"):
             sys.stderr.write("Input Error. SPARQL Endpoint must start with http:// or https://.\n")
-            sys.exit(1)
+            sys.exit(2)
         data_graph = endpoint
         validator_kwargs['sparql_mode'] = True
     else:
@@ -272,10 +273,10 @@ def main(prog: Union[str, None] = None) -> None:
             data_file = open(args.data, 'rb')
         except FileNotFoundError:
             sys.stderr.write('Input Error. DataGraph file not found.\n')
-            sys.exit(1)
+            sys.exit(2)
         except PermissionError:
             sys.stderr.write('Input Error. DataGraph file not readable.\n')
-            sys.exit(1)
+            sys.exit(2)
         else:
             # NOTE: This cast is not necessary in Python >= 3.10.
             data_graph = cast(BufferedReader, data_file)
@@ -363,6 +364,17 @@ def main(prog: Union[str, None] = None) -> None:
         traceback.print_tb(re.__traceback__)
         sys.stderr.write(
             "\n\nValidator encountered a Runtime Error. Please report this to the PySHACL issue tracker.\n"
+        )
+        exit_code = 2
+    except Exception as e:
+        # Anything else is an error as well: without this clause the interpreter would end with status 1,
+        # the status that means "DataGraph is Non-Conformant".
+        import traceback
+
+        traceback.print_tb(e.__traceback__)
+        sys.stderr.write("\n{}: {}".format(type(e).__name__, str(e)))
+        sys.stderr.write(
+            "\n\nValidator encountered an unexpected error. Please report this to the PySHACL issue tracker.\n"
         )
         exit_code = 2
     finally:
